@@ -296,7 +296,18 @@ def class_c(rng, prog, toks):
         return 'define zz_m 5 ' + base + ' assign zz_m 6', rule
     if rule == 'redefine-macro':
         v = rng.choice(['6', '"s"', '5'])
-        return 'define zz_m 5 ' + base + ' define zz_m ' + v, rule
+        again = 'define zz_m ' + v
+        # ... also from inside a routine or loop body, with or without a
+        # parameter / loop variable of the same name in between
+        form = rng.choice(['{}', '{}', 'define zz_f begin print 1 {} end',
+                           'define zz_f with zz_m begin print zz_m {} end',
+                           'define zz_f with zz_a zz_m begin {} print zz_a end',
+                           'repeat with zz_m from 1 to 2 begin {} end',
+                           'define zz_f begin repeat all as zz_m begin {} end end',
+                           'define zz_f begin repeat 2 with zz_m from 1 to 5 '
+                           'begin print zz_m {} end end',
+                           'if {{ 1 }} begin {} end'])
+        return 'define zz_m 5 ' + base + ' ' + form.format(again), rule
     if rule == 'undefined-name':
         form = rng.choice([
             'hue {}', 'assign zz_v {}', 'assign zz_v {{ {} + 1 }}', 'set {}',
